@@ -27,7 +27,10 @@ def plan(tier, seed):
     cfgs = [dict(kind="sink", L=6 if quick else 7),
             # segments far ahead of the gap (beyond any 64 KiB window), recording options switched off
             dict(kind="sink", L=6 if quick else 7, segs=[0, 1, 130, 131]),
-            dict(kind="sink", L=5 if quick else 6, flags=1)]
+            dict(kind="sink", L=5 if quick else 6, flags=1),
+            # fixed long arrival orders: a segment far ahead first, then the gap filled in; everything in reverse
+            dict(kind="sink", script=[127] + list(range(127))), dict(kind="sink", script=[300, 299] + list(range(299))),
+            dict(kind="sink", script=list(range(199, -1, -1)))]
     for cc in ("reno", "cubic"):
         for delays in ([1, 1], [1, 3], [3, 5]):
             for est in (0.25, 0.5, 4):
@@ -84,11 +87,15 @@ def exec_sink(ch, cfg):
     got = set()
     seq = []
     prev = 0
-    for i in range(cfg["L"]):
-        c = ch.choose(5, lambda c: "segment %s" % ("stop" if c == 0 else segs[c - 1]), free=True)
-        if c == 0:
-            break
-        k = segs[c - 1]
+    script = cfg.get("script")
+    for i in range(len(script) if script else cfg["L"]):
+        if script:
+            k = script[i]
+        else:
+            c = ch.choose(5, lambda c: "segment %s" % ("stop" if c == 0 else segs[c - 1]), free=True)
+            if c == 0:
+                break
+            k = segs[c - 1]
         seq.append(k)
         n0 = len(acks)
         try:
